@@ -871,6 +871,99 @@ func TestVerifC09ShedderPair(t *testing.T) {
 	c09CountObs(m, obs)
 }
 
+// c09GenHalfMs builds a trace whose only complete bucket holds whole-millisecond
+// latencies with a per-bucket mean of exactly x.5 ms (x even or odd): nb blocks of
+// {m arrivals, +a ms, m/2 passes, +k ms, m/2 passes} with k odd, on top of B long-lived
+// requests that keep the smoothed in-flight value high. The exact capacity is then
+// m*nb x buckets-per-second x (a+k/2)/1000; B sits at / one below floor(capacity), and
+// arrivals under overload walk the in-flight level up through and beyond it.
+func c09GenHalfMs(r *rand.Rand) c09Trace {
+	tr := c09Trace{
+		BucketMs:  []int64{50, 100}[r.Intn(2)],
+		Buckets:   []int{3, 5, 10}[r.Intn(3)],
+		Threshold: 900,
+		CPU0:      int64(r.Intn(900)),
+	}
+	emit := func(op c09Op) { tr.Ops = append(tr.Ops, op) }
+	D := tr.BucketMs
+	bps := 1000 / D
+	a := int64(1 + r.Intn(9))        // low latency, ms (mean a + k/2: x.5 for even and odd x)
+	k := []int64{1, 1, 3}[r.Intn(3)] // high latency = a + k
+	nb := (D - 1) / (a + k)          // blocks that fit strictly inside one bucket
+	m := int64(2 * (8 + r.Intn(25)))
+	for m*nb*bps < 6000 { // exact and 1-ms-too-low capacities differ by >= 3 requests
+		m += 2
+	}
+	capMilli2 := m * nb * bps * (2*a + k) // = 2000 x capacity
+	B := capMilli2/2000 - int64(r.Intn(2))
+	if B < 1 {
+		B = 1
+	}
+	for i := int64(0); i < B; i++ {
+		emit(c09Op{Op: "arr"})
+	}
+	for j := int64(0); j < nb; j++ {
+		for i := int64(0); i < m; i++ {
+			emit(c09Op{Op: "arr"})
+		}
+		emit(c09Op{Op: "adv", D: a})
+		for i := int64(0); i < m/2; i++ {
+			emit(c09Op{Op: "pass", I: int(B)}) // the oldest request of the block (the B long-lived ones stay)
+		}
+		emit(c09Op{Op: "adv", D: k})
+		for i := int64(0); i < m/2; i++ {
+			emit(c09Op{Op: "pass", I: int(B)})
+		}
+	}
+	// into the next bucket (the data bucket becomes a complete, visible one)
+	emit(c09Op{Op: "adv", D: D - nb*(a+k) + int64(r.Intn(int(D/2)))})
+	emit(c09Op{Op: "cpu", D: 900 + int64(r.Intn(200))})
+	for i, n := 0, 4+int(m/4)+r.Intn(8); i < n; i++ {
+		emit(c09Op{Op: "arr"})
+	}
+	emit(c09Op{Op: "cpu", D: int64(r.Intn(900))})
+	emit(c09Op{Op: "adv", D: 1001})
+	emit(c09Op{Op: "arr"})
+	return tr
+}
+
+// TestVerifC09ShedderHalfMs: per-bucket mean latencies falling exactly on x.5 ms, loads
+// exactly at / just below / above the capacity the statement defines.
+func TestVerifC09ShedderHalfMs(t *testing.T) {
+	m := vk.New(t, "C09", "seeded traces whose only complete bucket holds equal numbers of a-ms and (a+k)-ms passes (a in 1..9, k in {1,3}: mean exactly x.5 ms for even and odd x) on top of B long-lived requests, B = floor(exact capacity) or one less; then CPU above threshold and arrivals walking the in-flight level from B past the capacity; every Allow checked against (1) and (2) with the capacity from the exact mean; non-trivial = a rejection occurred with a window-derived capacity")
+	defer m.Done()
+	c09Quiet()
+	restore := c09InstallChecker()
+	defer restore()
+	defer timex.VerifRealClock()
+	n := vk.N(150, 4000)
+	r := m.Rand("half-ms")
+	obs := &c09ShObs{}
+	for idx := 1; idx <= n; idx++ {
+		tr := c09GenHalfMs(r)
+		if !m.Only(idx) {
+			continue
+		}
+		before := *obs
+		m.Current(fmt.Sprintf("case=%d", idx))
+		c09RunTrace(m, idx, tr, obs)
+		m.Case(vk.Digest(vk.JSON(tr)), obs.capacityFromWindow > before.capacityFromWindow)
+		if m.WantSample() && obs.rejected > before.rejected && idx%23 == 1 {
+			short := tr
+			short.Ops = nil
+			m.Sample(map[string]any{"trace_config": short, "ops": len(tr.Ops),
+				"admitted": obs.admitted - before.admitted, "rejected": obs.rejected - before.rejected,
+				"passes": obs.passes - before.passes, "last_rejection_state": obs.lastRejectDetail})
+		}
+	}
+	m.Count("allow_admitted", obs.admitted)
+	m.Count("allow_rejected", obs.rejected)
+	m.Count("clause1_forced_admissions_checked", obs.clause1Checked)
+	m.Count("clause2_rejections_checked", obs.clause2Checked)
+	m.Count("rejections_with_window_derived_capacity", obs.capacityFromWindow)
+	c09CountObs(m, obs)
+}
+
 // TestVerifC09ShedderDefaultChecker: the production systemOverloadChecker (real
 // stat.CpuUsage reading, not scripted) with a threshold far above any possible reading:
 // CPU usage is below the threshold during the whole trace, so clause (1) forbids every
